@@ -232,14 +232,22 @@ func c17Location(name string) (*time.Location, error) {
 type c17StampSeq struct {
 	Location string  `json:"location"`
 	Unix     []int64 `json:"unix"`
+	Local    string  `json:"process_local_zone,omitempty"` // time.Local while the sequence runs (the result must not depend on it)
 }
 
 func c17StampSeqExec(c *core.Ctx, in c17StampSeq) {
+	if in.Local != "" {
+		if l, err := c17Location(in.Local); err == nil {
+			old := time.Local
+			time.Local = l
+			defer func() { time.Local = old }()
+		}
+	}
 	for i, u := range in.Unix {
 		sub := core.NewCtx(c.Prop, c.Tier, 0, 0, 1)
 		c17StampExec(sub, c17Stamp{Unix: u, Location: in.Location})
 		for k, v := range sub.Viols {
-			short := c17StampSeq{Location: in.Location, Unix: in.Unix[:i+1]}
+			short := c17StampSeq{Location: in.Location, Unix: in.Unix[:i+1], Local: in.Local}
 			if len(short.Unix) > 400 {
 				short.Unix = short.Unix[len(short.Unix)-400:]
 			}
@@ -423,6 +431,26 @@ func c17Run(c *core.Ctx) {
 			n += int64(len(seq))
 		}
 	}
+	// the zone the process itself runs in must not matter: three civil zones (and a fixed-offset walk) again with
+	// time.Local set to a zone west and a zone east of Greenwich
+	for li, name := range []string{"Europe/Berlin", "America/New_York", "Australia/Lord_Howe", "UTC"} {
+		for zi, local := range []string{"America/Los_Angeles", "Asia/Kolkata"} {
+			if !c.Mine(li*2 + zi + 3) {
+				continue
+			}
+			var seq []int64
+			for _, m := range []time.Month{3, 10, 11} {
+				for h := 0; h < 24*31; h++ {
+					seq = append(seq, time.Date(2025, m, 1, 0, 30, 0, 0, time.UTC).Add(time.Duration(h)*time.Hour).Unix())
+				}
+			}
+			in := c17StampSeq{Location: name, Unix: seq, Local: local}
+			if c.Begin("timestamp-seq", "UniversalTime", map[string]any{"location": name, "process_local_zone": local}) {
+				c17StampSeqExec(c, in)
+				n += int64(len(seq))
+			}
+		}
+	}
 	// names: all lengths 0..64 with patterns; per-position all 128 septet values for lengths <= 17
 	for l := 0; l <= 64; l++ {
 		if !c.Mine(l) {
@@ -481,7 +509,7 @@ func init() {
 		ID: "C17", Level: "exploration", Run: c17Run,
 		Shards: func(string) int { return 16 },
 		Rule: func(string) string {
-			return "complete enumeration: every duration 0..1 116 000 s (timer 3) and 0..11 160 s (timer 2); all 65 536 AMBR values x 5 units x 2 directions; all 159 quarter-hour zones x DST 0/1/2 inside the stated domain; every day of 2000-2099 at 00:00:00 and 23:59:59 in 5 fixed zones, every second of 4 days in 5 zones, and 21 civil time zones (embedded tz database; DST rules west and east of Greenwich, half-hour rules, zones whose standard offset changed) as ordered sequences in one process: every day of 4 years at noon, every hour of the transition months, one instant every 45 days over 2000-2040 forwards and backwards; names of every length 0..64 with 4 patterns and every septet value at every position for lengths <= 17, both name functions. Oracle: unit tables of TS 24.008 10.5.7.4/10.5.7.4a (decode(encode(d)) = d for representable d, <= d always), Table 9.11.4.14.1 unit codes and 16-bit big-endian values, semi-octet BCD time coding with sign bit, GSM 7-bit unpacking per TS 23.038 returning exactly the name's septets from ceil(7n/8) octets with (8 - 7n mod 8) mod 8 spare bits."
+			return "complete enumeration: every duration 0..1 116 000 s (timer 3) and 0..11 160 s (timer 2); all 65 536 AMBR values x 5 units x 2 directions; all 159 quarter-hour zones x DST 0/1/2 inside the stated domain; every day of 2000-2099 at 00:00:00 and 23:59:59 in 5 fixed zones, every second of 4 days in 5 zones, and 21 civil time zones (embedded tz database; DST rules west and east of Greenwich, half-hour rules, zones whose standard offset changed) as ordered sequences in one process: every day of 4 years at noon, every hour of the transition months, one instant every 45 days over 2000-2040 forwards and backwards; four zones again with the process-local zone (time.Local) set west and east of Greenwich; names of every length 0..64 with 4 patterns and every septet value at every position for lengths <= 17, both name functions. Oracle: unit tables of TS 24.008 10.5.7.4/10.5.7.4a (decode(encode(d)) = d for representable d, <= d always), Table 9.11.4.14.1 unit codes and 16-bit big-endian values, semi-octet BCD time coding with sign bit, GSM 7-bit unpacking per TS 23.038 returning exactly the name's septets from ceil(7n/8) octets with (8 - 7n mod 8) mod 8 spare bits."
 		},
 		Assumptions: []string{
 			"zone/DST combinations whose effective offset crosses zero or leaves ±19:45 are outside the stated domain (no such zone exists; counted, not asserted)",
